@@ -50,7 +50,8 @@ pub fn run(k: &str, c: &Value) -> Value {
                 else if c["pre"].is_null() { Iso3::identity() } else { iso3(&c["pre"]) };
             let disp = pre * iso3(&c["disp"]);
             let displaced: Vec<Point3> = pts.iter().map(|p| disp * p).collect();
-            let init = iso3(&c["init"]) * pre.inverse();
+            // "init_exact": the guess is the answer itself (a stored result used again)
+            let init = if c["init_exact"].as_bool().unwrap_or(false) { disp.inverse() } else { iso3(&c["init"]) * pre.inverse() };
             let to_point = c["mode"].as_str().unwrap() == "point";
             let eval = |t: &Iso3| -> Vec<Value> { displaced.iter().map(|p| { let m = t * p; let sp = mesh.surf_closest_to(&m);
                 json!({"moved": hp3(&m), "closest": hp3(&sp.point), "normal": hv3(&sp.normal.into_inner()), "proj": hx(sp.scalar_projection(&m)), "dist": hx((m - sp.point).norm())}) }).collect() };
